@@ -267,7 +267,8 @@ Record call := mkC {
   c_tr : transport                   (* what client.Do does with the request *)
 }.
 
-Inductive cerr := CNone | CBuilder (e : berr) | CGather | CJobLabel | CGroupLabel | CTransport | CStatus (s : Z).
+(* COther: an error of any other kind (never produced by the model) *)
+Inductive cerr := CNone | CBuilder (e : berr) | CGather | CJobLabel | CGroupLabel | CTransport | CStatus (s : Z) | COther.
 
 Record request := mkR {
   r_method : Z;                        (* 0 PUT, 1 POST, 2 DELETE *)
